@@ -9,6 +9,8 @@ CUT_CALLEES = {
     "core::str::traits::index": ("range", 1),
     "core::str::traits::index_mut": ("range", 1),
     "std::string::String::truncate": ("idx", 1),
+    "<std::string::String as std::ops::Index<I>>::index": ("range", 1),
+    "<std::string::String as std::ops::IndexMut<I>>::index_mut": ("range", 1),
     "core::str::split_at": ("idx", 1),
     "core::str::split_at_mut": ("idx", 1),
     "std::string::String::split_off": ("idx", 1),
@@ -235,8 +237,18 @@ def _cmp_edges(ctx, body, pred):
     return C.bool_gate_edges(ctx, body, pred)
 
 
+def nobb(e):
+    """drop call-site ids so that two evaluations of the same pure call compare equal"""
+    if isinstance(e, tuple):
+        if e and e[0] == "call":
+            return ("call", e[1], tuple(nobb(x) for x in e[2]))
+        return tuple(nobb(x) for x in e)
+    return e
+
+
 def _sub_ok(ctx, b, bi, si, s, a, c, lower_bounds):
     cfg = ctx.cfg(b)
+    a, c = nobb(a), nobb(c)
     if a[0] == "const" and c[0] == "const":
         return a[1] >= c[1], "constants"
     # dominated by a comparison a > c / a >= c (or c < a / c <= a)
@@ -244,7 +256,7 @@ def _sub_ok(ctx, b, bi, si, s, a, c, lower_bounds):
         e = strip(e)
         if e[0] != "bin":
             return False
-        l, r = strip(e[2]), strip(e[3])
+        l, r = nobb(strip(e[2])), nobb(strip(e[3]))
         if e[1] in ("Gt", "Ge") and l == a and r == c:
             return True
         if e[1] in ("Lt", "Le") and l == c and r == a:
@@ -260,7 +272,9 @@ def _sub_ok(ctx, b, bi, si, s, a, c, lower_bounds):
         return False
     g = _cmp_edges(ctx, b, pred)
     lhs_local = _named_src(b, bi, s["rv"]["a"])
-    defs = [d for d in (Q.def_blocks_of_local(b, lhs_local) if lhs_local is not None else []) if d != bi]
+    # freshness is only tracked for named user variables; a temporary re-evaluating the same pure expression
+    # (e.g. a second `.len()`) is taken to equal the guarded one
+    defs = [d for d in (Q.def_blocks_of_local(b, lhs_local) if lhs_local is not None and lhs_local in b.names else []) if d != bi]
     if g and Q.gated(cfg, bi, g, def_blocks=defs)[0]:
         return True, "dominated by a comparison implying lhs >= rhs"
     # x - 1 under !is_char_boundary(s, x): boundary 0 always holds, so x >= 1
@@ -320,13 +334,14 @@ def _lower_bound(ctx, e, lower_bounds):
 
 def _div_ok(ctx, b, bi, si, s, a, c, lower_bounds):
     cfg = ctx.cfg(b)
+    a, c = nobb(a), nobb(c)
     if c[0] == "const":
         return c[1] != 0, "constant divisor"
     def pred(e):
         e = strip(e)
         if e[0] != "bin":
             return False
-        l, r = strip(e[2]), strip(e[3])
+        l, r = nobb(strip(e[2])), nobb(strip(e[3]))
         if e[1] == "Eq" and l == c and r == ("const", 0):
             return "neg"
         if e[1] == "Ne" and l == c and r == ("const", 0):
